@@ -92,6 +92,9 @@ def corpus():
         "catch_all-reraise": catch_all([L.raiser("V", 15), L.inc(1)]),
         "catch_all-recover-raises": catch_all([L.raiser("V", 16), L.inc(1)], ValueError, L.rec_count_raise),
         "fork-fail-join": L.fork_fail_join("S"),
+        "shallow-leaf": L.s_raiser("V", 17),
+        "shallow-deep": L.inc(L.s_fail_after(2, "K")),
+        "shallow-in-list": [L.s_inc(1), L.s_raiser("L", 18)],
         "success": L.add(L.inc(1), b=L.twice(3)),
         "caught": L.guard(2, 2),
     }
